@@ -746,8 +746,12 @@ macro "row_body" hcl:term : tactic => `(tactic| (
   intro region hmem t
   obtain ⟨sc, oid, prev⟩ := t
   have hlt := $hcl region hmem
+  -- the loop variable may be bound whole (`for region in …: start, end = region`) or by a tuple pattern
+  -- (`for start, end in …`): destructure it, so that `region.1` and `match region with | (s, e) => …` both compute
+  obtain ⟨rstart, rend⟩ := region
+  replace hlt : rstart < rend := hlt
   simp only [absRow, rowStep, mkFragment_ok _ _ _ _ hlt, ok_bind, ite_ok_bind, gapType_eq]
-  by_cases hg : region.fst = prev.snd <;> simp [hg]))
+  by_cases hg : rstart = prev.snd <;> simp [hg]))
 
 /-- `name = line[1:].split()[0].decode()` … `line_end_bytes = 2 if line[-2] == 13 else 1`, against `headerPart` -/
 macro "header_tail" tl:term : tactic => `(tactic| (
